@@ -521,8 +521,8 @@ def parse_authority(authority: bytes) -> list[Node]:
         )
     if not host:
         return out
-    if userinfo:
-        offset += 1  # for the @
+    if b"@" in authority:
+        offset += 1  # for the @, even when the userinfo is empty
     host = unquote_to_bytes(host)
     if host.startswith(b"["):
         if not host.endswith(b"]"):
